@@ -54,15 +54,18 @@ def declare(reg):
     for fn, names in (("create", ["name"]), ("delete", ["name"]), ("rename", ["old_name", "new_name"])):
         params = {n: "str" for n in names}
         params["server"] = "ref:IMAPUserServer"
+        extra = {"inbox-is-never-deleted": "not eq_ci(name, 'inbox')"} if fn == "delete" else {}
         reg.contract(
             M, "Mailbox." + fn, params=params,
             requires={f"from-parser-{n}": f"{n} == '' or safe_rel(rel_name({n}))" for n in names},
             raises={"InvalidMailbox": None, "MailboxExists": None, "NoSuchMailbox": None, "MailboxException": None},
             ghost={"cut": {"before_assign": "mbox", "asserts": {
                 # every path this classmethod forms afterwards (MH(maildir / name), remove_folder, rmtree, symlink/rename) uses this name
-                f"path-name-confined-{n}": f"{n} == '' or safe_rel({n})" for n in names
+                **{f"path-name-confined-{n}": f"{n} == '' or safe_rel({n})" for n in names}, **extra,
             }}},
             is_async=True,
-            props=["C09"],
+            props=["C09", "C17"] if fn == "delete" else ["C09"],
             note="verified up to the first mailbox lookup (cut point): after stripping the hierarchy prefix the name used for all later path-forming calls is confined; the names are not reassigned afterwards",
         )
+    reg.properties.setdefault("C17", {}).setdefault("bounded", []).append(
+        {"name": "namespace-invariants-e2e", "module": "harness.namespace", "func": "Namespace"})
